@@ -169,6 +169,20 @@ def build():
     one(r"xfr_data\.compatibility_mode\(\)\s*&&\s*q\.qtype\(\)\s*==\s*Rtype::AXFR\s*,", sv, "compatibility mode only for AXFR questions")
     one(r"Rtype::AXFR\s*\|\s*Rtype::IXFR\s+if\s+xfr_data\.diffs\(\)\.is_empty\(\)\s*=>", sv, "fallback arm: no diffs")
     one(r"if\s+query_serial\s*>=\s*soa\.serial\(\)\s*\{", sv, "single SOA reply when the client is up to date")
+    # the framing SOA and the zone walk use the same ReadableZone snapshot
+    pp = fn_body(sv, "preprocess")
+    one(r"let\s+read\s*=\s*xfr_data\.zone\(\)\.read\(\);\s*let\s+Ok\(zone_soa_answer\)\s*=\s*read_soa\(&read,\s*q\.qname\(\)\.to_name\(\)\)\.await", pp, "preprocess: SOA read from the snapshot")
+    if len(re.findall(r"\.read\(\)", pp)) != 1:
+        raise GenError("preprocess opens the zone for reading more than once")
+    one(r"Self::respond_to_axfr_query\(\s*zone_walking_semaphore,\s*batcher_semaphore,\s*req,\s*q\.qname\(\)\.to_name\(\),\s*&zone_soa_answer,\s*read,", pp, "preprocess hands the snapshot to the AXFR responder")
+    ax0 = fn_body(sv, "respond_to_axfr_query")
+    if re.search(r"\.read\(\)", ax0):
+        raise GenError("respond_to_axfr_query opens the zone again")
+    one(r"ZoneFunneler::new\(\s*read,\s*qname,\s*zone_soa_rrset,\s*batcher_tx,\s*zone_walk_semaphore,?\s*\)", ax0, "the walk gets the snapshot")
+    afn = strip_comments(read("src/net/server/middleware/xfr/axfr.rs"))
+    if re.search(r"\.read\(\)", afn) or not re.search(r"read\s*:\s*Box<dyn ReadableZone>", afn):
+        raise GenError("ZoneFunneler no longer walks the snapshot it is given")
+    defs.append(("axfr_soa_and_walk_same_snapshot", "bool", "true"))
     ax = fn_body(sv, "respond_to_axfr_query")
     one(r"batcher_tx\s*\.send\(\(qname\.clone\(\),\s*zone_soa_rrset\.clone\(\)\)\)", ax, "AXFR: leading SOA")
     defs.append(("sender_compat_axfr_only", "bool", "true"))
